@@ -43,7 +43,7 @@ def evaluate(ctx, run):
 
 def run(ctx):
     proof_ok, proof = common.proof_status(ctx, "C01")
-    n = 4000 if ctx.quick else 60000
+    n = 4000 if ctx.quick else 400000
     s = ctx.seed
     plan = [(0, n // 2, s), (8, n // 4, s + 1), (2, n // 8, s + 2), (4, n // 8, s + 3)]
     if not ctx.quick:
